@@ -188,7 +188,20 @@ func interp(toks []string) string {
 				vals = append(vals, unhex(rest[i+1]))
 			}
 		}
-		st, err := slim.NewSlimTrie(enc, keys, typedValues(enc, vals), ParseOpt(flags)...)
+		tv := typedValues(enc, vals)
+		opts := ParseOpt(flags)
+		keysCopy := append([]string{}, keys...)
+		valsCopy := fmt.Sprintf("%#v", tv)
+		optCopy := optString(opts)
+		st, err := slim.NewSlimTrie(enc, keys, tv, opts...)
+		lastInputsCheck = "inputs-unchanged"
+		if !reflect.DeepEqual(keysCopy, keys) && len(keys) > 0 {
+			lastInputsCheck = "KEYS-MODIFIED"
+		} else if valsCopy != fmt.Sprintf("%#v", tv) {
+			lastInputsCheck = "VALUES-MODIFIED"
+		} else if optCopy != optString(opts) {
+			lastInputsCheck = "OPT-MODIFIED"
+		}
 		if err != nil {
 			if st != nil {
 				return "err-with-trie"
@@ -260,6 +273,27 @@ func interp(toks []string) string {
 		return "ok"
 	case "trie.unmarshal":
 		return ErrKind(s.St.Unmarshal(unhex(toks[1])))
+	case "trie.unmarshal-scribble":
+		// Unmarshal from a caller-owned buffer, then overwrite the buffer (C20):
+		// pattern 0 = all 0x00, 1 = all 0xff, 2 = pseudo-random
+		buf := unhex(toks[1])
+		err := s.St.Unmarshal(buf)
+		scribble(buf, toks[2])
+		return ErrKind(err)
+	case "trie.marshal-scribble":
+		// Marshal, remember the answer, overwrite the returned bytes (C20)
+		b, err := s.St.Marshal()
+		if err != nil {
+			return ErrKind(err)
+		}
+		ans := fmt.Sprintf("ok %d %s", len(b), Fnv64(b))
+		scribble(b, toks[1])
+		return ans
+	case "trie.new-checked":
+		// like trie.new, but keeps deep copies of the caller's keys, values and
+		// option struct (pointer targets included) and compares them afterwards (C20)
+		r := interp(append([]string{"trie.new"}, toks[1:]...))
+		return r + " " + lastInputsCheck
 	case "trie.reset":
 		s.St.Reset()
 		return "ok"
@@ -315,6 +349,38 @@ func interp(toks []string) string {
 		return compact(sb.String())
 	}
 	return "bad-op"
+}
+
+var lastInputsCheck = "inputs-unchanged"
+
+func optString(opts []slim.Opt) string {
+	if len(opts) == 0 {
+		return "-"
+	}
+	p := func(b *bool) string {
+		if b == nil {
+			return "n"
+		}
+		if *b {
+			return "t"
+		}
+		return "f"
+	}
+	o := opts[0]
+	return p(o.DedupValue) + p(o.InnerPrefix) + p(o.LeafPrefix) + p(o.Complete)
+}
+
+func scribble(b []byte, pattern string) {
+	for i := range b {
+		switch pattern {
+		case "0":
+			b[i] = 0
+		case "1":
+			b[i] = 0xff
+		default:
+			b[i] = byte(i*131 + 7)
+		}
+	}
 }
 
 func kvStr(k, v []byte) string {
